@@ -64,11 +64,63 @@ def _special_pairs(ctx):
     tgt = kc.mk_area({"proj": "longlat", "pm": 180, "datum": "WGS84"}, 8, 5, (-4.0, 10.0, 4.0, 15.0))
     lon, lat = kc.swath(r, 9, 9, 179.5, 12.5, 9.0)
     out.append((SwathDefinition(lon, lat), tgt, 60000.0, "special pm180: swath[9x9] at the dateline -> longlat +pm=180 5x8, r=60000"))
+    # regional polar-stereographic targets whose own right (resp. left) edge straddles the antimeridian, regular lon/lat mesh as source
+    for lon0, ext, name in ((150.0, (-1.0e6, -3.5e6, 1.5e6, -1.5e6), "bering_right_edge"), (-150.0, (-1.5e6, -3.5e6, 1.0e6, -1.5e6), "bering_left_edge")):
+        tgt = kc.mk_area({"proj": "stere", "lat_0": 90, "lat_ts": 70, "lon_0": lon0, "ellps": "WGS84"}, 7, 6, ext)
+        lo = np.arange(100.0, 260.0, 4.0)
+        lo = np.where(lo > 180, lo - 360, lo)
+        la = np.arange(85.0, 40.0, -3.0)
+        mlon, mlat = np.meshgrid(lo, la)
+        out.append((SwathDefinition(mlon, mlat), tgt, 250000.0, f"special {name}: lon/lat mesh {mlon.shape} across 180 -> stere 6x7 with an edge straddling 180, r=250000"))
+    # source and target far apart: the reduction leaves nothing and the "nothing to resample" shortcut answers
+    tgt = kc.mk_area({"proj": "laea", "lat_0": 50, "lon_0": 10, "ellps": "WGS84"}, 6, 5, (-3.0e5, -2.5e5, 3.0e5, 2.5e5))
+    lon, lat = kc.swath(r, 8, 8, -70.0, -20.0, 8.0)
+    out.append((SwathDefinition(lon, lat), tgt, 50000.0, "special disjoint: swath[8x8] over South America -> laea Europe 5x6, r=50000"))
     # grid -> swath (output reduction)
     src = kc.mk_area({"proj": "laea", "lat_0": 70, "lon_0": 20, "ellps": "WGS84"}, 8, 7, (-4.0e5, -3.0e5, 4.0e5, 4.0e5))
     lon, lat = kc.swath(r, 8, 8, 20.0, 70.0, 12.0)
     out.append((src, SwathDefinition(lon, lat), 70000.0, "special grid_to_swath: laea70N 7x8 -> swath[8x8], r=70000"))
     return out
+
+
+def _f7_reference_window(b_lons, b_lats, lons, lats, radius):
+    """FROZEN copy of data_reduce._get_valid_index as it stands with known finding F7 (sin-for-cos longitude buffer, longitude
+    extent from sides 2 and 4 only).  It pins the finding: a window that drops a needed location is the KNOWN finding only if
+    the library's window is still exactly this one; any other window that drops needed locations is a new violation."""
+    s1, s2, s3, s4 = (np.asarray(x, float) for x in (b_lons.side1, b_lons.side2, b_lons.side3, b_lons.side4))
+    t1, t2, t3, t4 = (np.asarray(x, float) for x in (b_lats.side1, b_lats.side2, b_lats.side3, b_lats.side4))
+    lons, lats = np.asarray(lons, float), np.asarray(lats, float)
+    if any(((x < -180) | (x > 180)).any() for x in (s1, s2, s3, s4)) or any(((x < -90) | (x > 90)).any() for x in (t1, t2, t3, t4)):
+        return np.ones(lons.size, dtype=bool)
+    angle_sum = 0
+    for side in (s1, s2, s3, s4):
+        prev = None
+        for lon in side:
+            if prev:
+                delta = lon - prev
+                if abs(delta) > 180:
+                    delta = (abs(delta) - 360) * (delta // abs(delta))
+                angle_sum += delta
+            prev = lon
+    with np.errstate(all="ignore"):
+        lat_min_b = min(t1.min(), t2.min(), t3.min(), t4.min()) - np.degrees(float(radius) / R)
+        lat_max_b = max(t1.max(), t2.max(), t3.max(), t4.max()) + np.degrees(float(radius) / R)
+        a2 = max(abs(t2.max()), abs(t2.min()))
+        a4 = max(abs(t4.max()), abs(t4.min()))
+        lon_min_b = s4.min() - np.degrees(float(radius) / (np.sin(np.radians(a4)) * R))
+        lon_max_b = s2.max() + np.degrees(float(radius) / (np.sin(np.radians(a2)) * R))
+        if round(angle_sum) == -360:
+            return lats >= lat_min_b
+        if round(angle_sum) == 360:
+            return lats <= lat_max_b
+        if round(angle_sum) == 0:
+            valid_lats = (lats >= lat_min_b) & (lats <= lat_max_b)
+            if s2.min() > s4.max():
+                valid_lons = (lons >= lon_min_b) & (lons <= lon_max_b)
+            else:
+                valid_lons = ((lons >= lon_min_b) & (lons <= 180)) | ((lons <= lon_max_b) & (lons >= -180))
+            return valid_lats & valid_lons
+    return np.ones(lons.size, dtype=bool)
 
 
 def _window_diagnosis(src, tgt, radius, d, sv, tv):
@@ -88,17 +140,21 @@ def _window_diagnosis(src, tgt, radius, d, sv, tv):
             b = tgt.get_boundary_lonlats()
             keep_src = np.asarray(data_reduce.get_valid_index_from_lonlat_boundaries(b[0], b[1], slo.ravel(), sla.ravel(), radius)).astype(bool)
             needed = (d <= radius).any(axis=0) & sv            # sources within r of some valid target
-            results.append(("source", b, sla.ravel(), needed & ~keep_src))
+            ref = _f7_reference_window(b[0], b[1], slo.ravel(), sla.ravel(), radius)
+            results.append(("source", b, sla.ravel(), needed & ~keep_src, bool(np.array_equal(np.asarray(ref, bool)[sv], keep_src[sv]))))
         if isinstance(src, griddish) and isinstance(tgt, geometry.CoordinateDefinition):
             b = src.get_boundary_lonlats()
             keep_t = np.asarray(data_reduce.get_valid_index_from_lonlat_boundaries(b[0], b[1], tlo.ravel(), tla.ravel(), radius)).astype(bool)
             needed = (d <= radius).any(axis=1) & tv            # targets that have a valid source within r
-            results.append(("target", b, tla.ravel(), needed & ~keep_t))
-    for side, b, pts_lat, dropped in results:
+            ref = _f7_reference_window(b[0], b[1], tlo.ravel(), tla.ravel(), radius)
+            results.append(("target", b, tla.ravel(), needed & ~keep_t, bool(np.array_equal(np.asarray(ref, bool)[tv], keep_t[tv]))))
+    for side, b, pts_lat, dropped, same_as_f7 in results:
         if dropped.any():
             lats_b = np.concatenate([np.asarray(x).ravel() for x in (b[1].side1, b[1].side2, b[1].side3, b[1].side4)])
             lat_ok = (pts_lat >= lats_b.min() - buf) & (pts_lat <= lats_b.max() + buf)
             cause = "lon_window" if lat_ok[dropped].all() else "lat_window"
+            if cause == "lon_window" and not same_as_f7:
+                cause = "lon_window_changed"       # not the known window any more: a different (new) way of dropping needed locations
             return False, cause, int(dropped.sum()), keep_src, side
     return True, None, 0, keep_src, ("source" if keep_src is not None else None)
 
@@ -131,6 +187,8 @@ def check(ctx, src, tgt, radius, desc):
         "nn": lambda **kw: kd_tree.resample_nearest(src, ids, tgt, radius, epsilon=0, fill_value=None, **kw),
         "gauss": lambda **kw: kd_tree.resample_gauss(src, data2, tgt, radius, [radius / 2, radius], neighbours=k, epsilon=0, fill_value=-1, with_uncert=True, **kw),
         "custom": lambda **kw: kd_tree.resample_custom(src, ids, tgt, radius, wf, neighbours=k, epsilon=0, fill_value=None, **kw),
+        # integer data with a fill value that is not representable in the data's dtype
+        "custom_int": lambda **kw: kd_tree.resample_custom(src, ids.astype(np.int32), tgt, radius, wf, neighbours=k, epsilon=0, fill_value=-999.5, **kw),
     }
     segs = sorted(set([1, 2, 3, rows, rows + 3]))
     for tname, call in calls.items():
@@ -164,7 +222,8 @@ def check(ctx, src, tgt, radius, desc):
                     tags = {"cause": cause}
                     site = "data_reduce.get_valid_index_from_lonlat_boundaries"
                     what = (f"reduce_data=True changes the result: the boundary window drops {n_dropped} {side} location(s) lying within the "
-                            f"radius (they pass the latitude window and fail the longitude window)" if cause == "lon_window" else
+                            f"radius (they pass the latitude window and fail the longitude window"
+                            + ("" if cause == "lon_window" else "; the window is NOT the known one of finding F7") + ")" if cause.startswith("lon_window") else
                             f"reduce_data=True changes the result: the boundary window drops {n_dropped} needed {side} location(s) (latitude window)")
                 else:
                     tags = {"cause": "organisation", "reduce_data": rd, "segments_gt1": sg > 1, "nprocs_gt1": npr > 1}
